@@ -398,7 +398,7 @@ def shared(chk, part="core"):
     """Run (or load) the shared stage for this tree / tier / seed.  Returns a dict:
        n_runs, tlc: [{module,cfg,distinct,generated,wall,coverage}], verdicts: {clause: [ {key, ...} ]},
        divergences, samples, design_violations"""
-    key = tree_key({"tier": chk.tier, "seed": chk.seed, "part": part, "v": 37})
+    key = tree_key({"tier": chk.tier, "seed": chk.seed, "part": part, "v": 38})
     os.makedirs(CACHE, exist_ok=True)
     # one entry per (part, tier, repository location): runs against a mutated copy must not evict /repo's entry
     prefix = "%s-%s-%s-" % (part, chk.tier, hashlib.sha256(REPO.encode()).hexdigest()[:8])
@@ -495,7 +495,8 @@ def _compute(chk, part):
                 jobs.append({"key": [tid, ci + 1, fi + 1], "prog": p, "flat": flat, "cfg": c, "fault": f,
                              "fault_kind": "assert" if (tid + ci + fi) % 3 == 0 else "exc",
                              # every 7th job: the same model objects were run once before and reset (history)
-                             "prerun": (tid + 2 * ci + 3 * fi) % 7 == 0})
+                             # ... every 14th: by this very runner object (same configuration), the others by another runner
+                             "prerun": ("same" if (tid + 2 * ci + 3 * fi) % 14 == 7 else True) if (tid + 2 * ci + 3 * fi) % 7 == 0 else False})
     out = drive_all(jobs)
     for row in out:
         if "driver_error" in row:
